@@ -30,7 +30,7 @@ package storage
 //@ func (WalletDB).DeleteProof
 //@   trusted
 //@   pure
-//@ func (WalletDB).AddPendingProofs
+//@ func (WalletDB).AddPendingProofs(ps)
 //@   trusted
 //@   pure
 //@ func (WalletDB).AddPendingProofsByQuoteId
